@@ -19,6 +19,14 @@ import hashlib
 from pyvc import loader
 from pyvc.flow import dotted, ground_obligation
 from contracts import C06_flow as FL
+from contracts import C06_frame as FR
+
+
+def volatile(o):
+    """Obligations of code sites are identified by function (and local) names, which follow the code: they are checked and
+    counted but not locked; the package-level `...-scanned` obligations are the vacuity guard of their families."""
+    o["volatile"] = True
+    return o
 
 DT = "sharepoint2text/parsing/extractors/data_types.py"
 
@@ -52,15 +60,24 @@ def functions_of(mod):
     return list(mod.functions.items())
 
 
+_OWN = {}
+
+
 def own_nodes(fnode):
-    """AST nodes of a function excluding nested function bodies."""
+    """AST nodes of a function excluding nested function bodies (cached: the trees live as long as the loader's module cache)."""
+    hit = _OWN.get(id(fnode))
+    if hit is not None and hit[0] is fnode:
+        return hit[1]
+    out = []
     stack = list(ast.iter_child_nodes(fnode))
     while stack:
         n = stack.pop()
-        yield n
+        out.append(n)
         if isinstance(n, (ast.FunctionDef, ast.AsyncFunctionDef, ast.Lambda)):
             continue
         stack.extend(ast.iter_child_nodes(n))
+    _OWN[id(fnode)] = (fnode, out)
+    return out
 
 
 # ------------------------------------------------------------------- order --
@@ -195,17 +212,17 @@ NON_INJECTIVE_METHODS = {"lower", "upper", "casefold", "strip", "lstrip", "rstri
                          "startswith", "endswith", "find", "isdigit", "isupper", "islower", "get"}
 
 
-def key_injective(key):
-    """(status, text) for the `key=` of sorted/min/max applied to an unordered collection.
+def key_injective(key, mod=None):
+    """(status, text) for the `key=` of sorted/min/max/.sort applied to an unordered collection.
     'yes': equal keys imply equal elements (no key, identity, or a tuple with the element itself as a component) -> the
     result does not depend on the iteration order; 'no': a function with ties between distinct elements (the stable sort /
-    first-extremum rule then exposes the set's iteration order); 'unknown': shape not recognised."""
+    first-extremum rule then exposes the set's iteration order); 'unknown': shape not recognised.
+    A key given by the name of a one-parameter function of the module is analysed through its `return` expressions."""
     if key is None or (isinstance(key, ast.Constant) and key.value is None):
         return "yes", "no key (total order of the elements)"
     src = ast.unparse(key)
-    if isinstance(key, ast.Lambda) and len(key.args.args) == 1 and not key.args.vararg and not key.args.kwarg:
-        a = key.args.args[0].arg
-        b = key.body
+
+    def body_status(a, b):
         if isinstance(b, ast.Name) and b.id == a:
             return "yes", "identity key"
         if isinstance(b, ast.Tuple) and any(isinstance(e, ast.Name) and e.id == a for e in b.elts):
@@ -219,17 +236,113 @@ def key_injective(key):
         if isinstance(b, ast.Subscript) and isinstance(b.value, ast.Name) and b.value.id == a:
             return "no", f"key {src} looks at one component of the element only"
         return "unknown", f"key {src} not recognised as injective"
+
+    if isinstance(key, ast.Lambda) and len(key.args.args) == 1 and not key.args.vararg and not key.args.kwarg:
+        return body_status(key.args.args[0].arg, key.body)
+    if isinstance(key, ast.Name) and mod is not None and key.id in mod.functions and not isinstance(mod.functions[key.id], ast.Lambda):
+        fn = mod.functions[key.id]
+        ps = [x.arg for x in fn.args.args]
+        rets = [n for n in own_nodes(fn) if isinstance(n, ast.Return) and n.value is not None]
+        if len(ps) == 1 and rets:
+            sts = [body_status(ps[0], r.value) for r in rets]
+            if all(s_[0] == "yes" for s_ in sts):
+                return "yes", f"{key.id}(): " + sts[0][1]
+            if len(rets) == 1:
+                return sts[0][0], f"{key.id}(): " + sts[0][1]
+        return "unknown", f"key {src} not recognised as injective"
     d = dotted(key)
     if d in NON_INJECTIVE_KEYS or d.split(".")[-1] in NON_INJECTIVE_METHODS:
         return "no", f"key {src} maps distinct elements to equal keys"
     return "unknown", f"key {src} not recognised as injective"
 
 
+def _parents(fnode):
+    par = {}
+    for n in ast.walk(fnode):
+        for ch in ast.iter_child_nodes(n):
+            par[id(ch)] = n
+    return par
+
+
+def _following_statements(fnode, par, stmt):
+    """Statements executed after `stmt` in its own block (and, when that block ends, after the enclosing compound statement)."""
+    out = []
+    cur = stmt
+    while cur is not None and cur is not fnode:
+        p = par.get(id(cur))
+        if p is None:
+            break
+        for field in ("body", "orelse", "finalbody"):
+            blk = getattr(p, field, None)
+            if isinstance(blk, list) and any(x is cur for x in blk):
+                i = next(k for k, x in enumerate(blk) if x is cur)
+                out.extend(blk[i + 1:])
+        if isinstance(p, (ast.For, ast.While, ast.AsyncFor)):
+            return out, True          # inside a loop: later iterations may see the name again
+        cur = p
+    return out, False
+
+
+def sorted_before_use(mod, fnode, par, node):
+    """The order-exposing expression `node` is bound to a local name that is put into a canonical order before anything else
+    looks at it:  xs = list(s); xs.sort()   /   xs = [..for x in s]; xs = sorted(xs).
+    -> ('sorted', key node or None, sort call) | ('later', ...) when a sort exists but is not the first use | None."""
+    if isinstance(node, tuple):
+        st, name = node            # (statement after which the sequence `name` is complete, name)
+    else:
+        st = par.get(id(node))
+        if not (isinstance(st, (ast.Assign, ast.AnnAssign)) and getattr(st, "value", None) is node):
+            return None
+        tgt = st.targets[0] if isinstance(st, ast.Assign) and len(st.targets) == 1 else getattr(st, "target", None)
+        if not isinstance(tgt, ast.Name):
+            return None
+        name = tgt.id
+    following, in_loop = _following_statements(fnode, par, st)
+    def mentions(s_):
+        """The statement looks at the sequence in an order-sensitive way (log messages and len()/any()/set()... of it do not)."""
+        for x in ast.walk(s_):
+            if isinstance(x, ast.Name) and x.id == name:
+                up, ok_ = par.get(id(x)), False
+                if isinstance(up, ast.Call) and isinstance(up.func, ast.Name) and up.func.id in ORDER_SAFE_CONSUMERS - KEYED_CONSUMERS:
+                    ok_ = True
+                while up is not None and up is not s_ and not ok_:
+                    if isinstance(up, ast.Call) and isinstance(up.func, ast.Attribute) and isinstance(up.func.value, ast.Name) \
+                            and up.func.value.id in ("logger", "logging", "log"):
+                        ok_ = True
+                    up = par.get(id(up))
+                if isinstance(s_, ast.Expr) and isinstance(s_.value, ast.Call) and isinstance(s_.value.func, ast.Attribute) \
+                        and isinstance(s_.value.func.value, ast.Name) and s_.value.func.value.id in ("logger", "logging", "log"):
+                    ok_ = True
+                if not ok_:
+                    return True
+        return False
+    def sort_call(s_):
+        if isinstance(s_, ast.Expr) and isinstance(s_.value, ast.Call) and isinstance(s_.value.func, ast.Attribute) and s_.value.func.attr == "sort" \
+                and isinstance(s_.value.func.value, ast.Name) and s_.value.func.value.id == name:
+            return s_.value
+        if isinstance(s_, ast.Assign) and len(s_.targets) == 1 and isinstance(s_.targets[0], ast.Name) and s_.targets[0].id == name \
+                and isinstance(s_.value, ast.Call) and dotted(s_.value.func) == "sorted" and s_.value.args and isinstance(s_.value.args[0], ast.Name) \
+                and s_.value.args[0].id == name:
+            return s_.value
+        return None
+    for s_ in following:
+        if not mentions(s_):
+            continue
+        c = sort_call(s_)
+        if c is not None and not in_loop:
+            return ("sorted", next((k.value for k in c.keywords if k.arg == "key"), None), c)
+        break
+    anywhere = any(sort_call(s_) is not None for s_ in ast.walk(fnode) if isinstance(s_, ast.stmt)) or \
+        any(isinstance(x, ast.Call) and dotted(x.func) == "sorted" and x.args and isinstance(x.args[0], ast.Name) and x.args[0].id == name for x in ast.walk(fnode))
+    return ("later", None, None) if anywhere else None
+
+
 def order_sites(mod, q, fnode, summ=None, keyed_out=None):
-    """Order-exposing uses of unordered values: [(node, description)].
-    `keyed_out` (list) receives one record per sorted/min/max over an unordered value: (node, status, text)."""
+    """Order-exposing uses of unordered values: [(node, description, definite)].
+    `keyed_out` (list) receives one record per sorted/min/max/.sort over an unordered value: (node, status, text, key)."""
     unames, is_u = unordered_names(mod, fnode, summ)
     known = {k: True for k in unames}
+    par = _parents(fnode)
     out = []
 
     def derived(e):
@@ -248,34 +361,60 @@ def order_sites(mod, q, fnode, summ=None, keyed_out=None):
     for n in own_nodes(fnode):
         if isinstance(n, ast.Call) and isinstance(n.func, ast.Name) and n.func.id in KEYED_CONSUMERS and n.args and derived(n.args[0]):
             key = next((k.value for k in n.keywords if k.arg == "key"), None)
-            st, txt = key_injective(key)
+            st, txt = key_injective(key, mod)
             if keyed_out is not None:
-                keyed_out.append((n, st, f"{n.func.id}(<set>{', key=' + ast.unparse(key) if key is not None else ''}): {txt}"))
+                keyed_out.append((n, st, f"{n.func.id}(<set>{', key=' + ast.unparse(key) if key is not None else ''}): {txt}", key))
             if st != "yes":
                 unsafe_keyed.add(id(n))
+
+    def add(n, desc):
+        """An order-exposing expression; harmless when the sequence is sorted before anything else uses it."""
+        sb = sorted_before_use(mod, fnode, par, n)
+        if sb is not None and sb[0] == "sorted":
+            st, txt = key_injective(sb[1], mod)
+            if keyed_out is not None:
+                keyed_out.append((sb[2], st, f"{desc} put in order by {ast.unparse(sb[2])[:60]} before any other use: {txt}", sb[1]))
+            return
+        if sb is not None:
+            out.append((n, desc + " (sorted later, but not before every other use)", False))
+            return
+        out.append((n, desc, True))
+
     for n in own_nodes(fnode):
         if isinstance(n, ast.Call):
             f = n.func
             if isinstance(f, ast.Name) and f.id in ORDER_EXPOSING_CONSUMERS and n.args and is_u(n.args[0], known):
-                out.append((n, f"{f.id}(<set>)"))
+                add(n, f"{f.id}(<set>)")
             if isinstance(f, ast.Attribute) and f.attr == "join" and n.args and is_u(n.args[0], known):
-                out.append((n, "str.join(<set>)"))
+                out.append((n, "str.join(<set>)", True))
             if isinstance(f, ast.Attribute) and f.attr == "pop" and is_u(f.value, known) and not n.args:
-                out.append((n, "<set>.pop()"))
+                out.append((n, "<set>.pop()", True))
             if isinstance(f, ast.Attribute) and f.attr == "extend" and n.args and is_u(n.args[0], known):
-                out.append((n, "list.extend(<set>)"))
+                out.append((n, "list.extend(<set>)", False))
         elif isinstance(n, (ast.ListComp, ast.GeneratorExp, ast.DictComp)):
             for g in n.generators:
                 if is_u(g.iter, known):
-                    # generator consumed by an order-insensitive function?
-                    out.append((n, "comprehension over <set>"))
+                    add(n, "comprehension over <set>")
         elif isinstance(n, ast.For) and is_u(n.iter, known):
-            if not _commutative_body(n.body, fnode, n):
-                out.append((n, "for-loop over <set> with order-dependent body"))
+            collected = set()
+            cb = _commutative_body(n.body, fnode, n, collected)
+            if cb is True and collected:
+                # the loop only collects into local lists: fine when each of them is sorted before anything else looks at it
+                for lst in sorted(collected):
+                    sb = sorted_before_use(mod, fnode, par, (n, lst))
+                    if sb is not None and sb[0] == "sorted":
+                        st, txt = key_injective(sb[1], mod)
+                        if keyed_out is not None:
+                            keyed_out.append((sb[2], st, f"list {lst} filled in <set> order, put in order by {ast.unparse(sb[2])[:60]} before any other use: {txt}", sb[1]))
+                    else:
+                        out.append((n, f"for-loop over <set> appends to {lst}" + (" (sorted later, but not before every other use)" if sb else ""), sb is None))
+            elif cb is not True:
+                # an unrecognised loop body is not a proof of order dependence: the native replayer decides
+                out.append((n, "for-loop over <set> whose body is not recognised as order-independent" + (f" ({cb})" if cb else ""), False))
         elif isinstance(n, ast.Starred) and is_u(n.value, known):
-            out.append((n, "*<set>"))
+            out.append((n, "*<set>", True))
         elif isinstance(n, (ast.Assign,)) and isinstance(n.value, ast.Name) is False and isinstance(n.targets[0], (ast.Tuple, ast.List)) and is_u(n.value, known):
-            out.append((n, "tuple unpacking of <set>"))
+            out.append((n, "tuple unpacking of <set>", True))
     # comprehension directly inside an order-insensitive consumer is fine: sorted(x for x in s), any(...), set(...)
     # -- unless the consumer is sorted/min/max with a key that has ties (unsafe_keyed)
     safe = set()
@@ -286,28 +425,49 @@ def order_sites(mod, q, fnode, summ=None, keyed_out=None):
                     safe.add(id(a))
                 if isinstance(a, ast.Call) and isinstance(a.func, ast.Name) and a.func.id in ORDER_EXPOSING_CONSUMERS:
                     safe.add(id(a))
-    return [(n, d) for (n, d) in out if id(n) not in safe]
+    # a set / dict comprehension over a set is itself unordered-in, unordered-out
+    return [(n, d, df) for (n, d, df) in out if id(n) not in safe]
 
 
-def _commutative_body(stmts, fnode=None, loop=None):
+COMMUTATIVE_METHODS = {"add", "discard", "update", "setdefault", "debug", "info", "warning", "error", "exception", "log"}
+
+
+def _commutative_body(stmts, fnode=None, loop=None, collected=None):
+    """True when executing the body for the elements in any order gives the same final state; otherwise a short reason.
+    `collected` (a set) receives the names of local lists the body appends to: their order is the iteration order."""
     for s in stmts:
+        if collected is not None and isinstance(s, ast.Expr) and isinstance(s.value, ast.Call) and isinstance(s.value.func, ast.Attribute) \
+                and s.value.func.attr in ("append", "extend") and isinstance(s.value.func.value, ast.Name):
+            collected.add(s.value.func.value.id)
+            continue
         # per-iteration temporary: a plain name assigned in the body and never read outside the loop
-        if isinstance(s, ast.Assign) and len(s.targets) == 1 and isinstance(s.targets[0], ast.Name) and fnode is not None:
-            nm = s.targets[0].id
-            inside = {id(x) for x in ast.walk(loop)}
-            if all(id(x) in inside for x in ast.walk(fnode) if isinstance(x, ast.Name) and x.id == nm and isinstance(x.ctx, ast.Load)):
+        if isinstance(s, (ast.Assign, ast.AnnAssign)) and fnode is not None:
+            tg = s.targets[0] if isinstance(s, ast.Assign) and len(s.targets) == 1 else getattr(s, "target", None)
+            if isinstance(tg, ast.Name):
+                inside = {id(x) for x in ast.walk(loop)}
+                if all(id(x) in inside for x in ast.walk(fnode) if isinstance(x, ast.Name) and x.id == tg.id and isinstance(x.ctx, ast.Load)):
+                    continue
+        if isinstance(s, ast.Expr) and isinstance(s.value, ast.Call) and isinstance(s.value.func, ast.Attribute) and s.value.func.attr in COMMUTATIVE_METHODS:
+            continue       # set insertion / removal, dict.setdefault, log messages (PY-LOG: not part of any result)
+        if isinstance(s, ast.Expr) and isinstance(s.value, ast.Constant):
+            continue
+        if isinstance(s, ast.If):
+            a_, b_ = _commutative_body(s.body, fnode, loop, collected), _commutative_body(s.orelse, fnode, loop, collected)
+            if a_ is True and b_ is True:
                 continue
-        if isinstance(s, ast.Expr) and isinstance(s.value, ast.Call) and isinstance(s.value.func, ast.Attribute) and s.value.func.attr in ("add", "discard", "update"):
-            continue
-        if isinstance(s, ast.If) and _commutative_body(s.body, fnode, loop) and _commutative_body(s.orelse, fnode, loop):
-            continue
+            return a_ if a_ is not True else b_
         if isinstance(s, (ast.Pass, ast.Continue)):
+            continue
+        # counters and sums: x += <number>, total |= flags
+        if isinstance(s, ast.AugAssign) and isinstance(s.op, (ast.Add, ast.BitOr, ast.BitAnd, ast.Mult)) and isinstance(s.target, ast.Name) and \
+                (isinstance(s.value, ast.Constant) and isinstance(s.value.value, (int, float)) or
+                 (isinstance(s.value, ast.Call) and dotted(s.value.func) in ("len", "int", "float", "abs"))):
             continue
         # d[key] = value into a dict keyed by something: building a mapping is order-independent as a mapping
         if isinstance(s, ast.Assign) and len(s.targets) == 1 and isinstance(s.targets[0], ast.Subscript) \
                 and isinstance(s.targets[0].value, ast.Name):
             continue
-        return False
+        return f"line {s.lineno}: {type(s).__name__}"
     return True
 
 
@@ -408,27 +568,36 @@ def policy(repo, tier):
     files = loader.all_package_files(repo)
     mods = {f: loader.module(f, repo) for f in files if "/sharepoint_io/" not in f}
     n_fun = 0
+    n_keyed = 0
     # ---- order
     summ = Summaries(mods)
     for rel, m in mods.items():
         for q, fnode in functions_of(m):
             keyed = []
-            sites = order_sites(m, q, fnode, summ, keyed)
             n_fun += 1
-            for k, (node, desc) in enumerate(sites):
+            try:
+                sites = order_sites(m, q, fnode, summ, keyed)
+            except Exception as e:  # noqa -- unexpected shape: never an engine error
+                o = ground_obligation(f"C06/{rel.split('/')[-1]}::{q}/order#set-iteration-0", False, f"order analysis failed on this shape ({type(e).__name__}: {e})"[:200],
+                                      rel, definite=False)
+                o["replay_hint"] = {"kind": "order", "file": rel, "function": q, "line": getattr(fnode, "lineno", 0)}
+                obls.append(volatile(o))
+                continue
+            for k, (node, desc, dfn) in enumerate(sites):
                 o = ground_obligation(f"C06/{rel.split('/')[-1]}::{q}/order#set-iteration-{k}", False,
-                                      f"{rel}:{node.lineno} {desc}: the resulting order depends on the hash seed", rel)
+                                      f"{rel}:{node.lineno} {desc}: the resulting order depends on the hash seed", rel, definite=dfn)
                 o["replay_hint"] = {"kind": "order", "file": rel, "function": q, "line": node.lineno}
-                obls.append(o)
+                obls.append(volatile(o))
             # sorted / min / max over a set: independent of the iteration order only when equal keys imply equal elements
-            for k, (node, st, txt) in enumerate(keyed):
+            for k, (node, st, txt, key) in enumerate(keyed):
+                n_keyed += 1
                 o = ground_obligation(f"C06/{rel.split('/')[-1]}::{q}/order#keyed-consumer-of-set-is-tie-free-{k}", st == "yes",
                                       f"{rel}:{node.lineno} {txt}" + ("" if st == "yes" else ": elements with equal keys keep the set's iteration "
                                                                       "order (stable sort / first extremum), which depends on the hash seed"),
                                       rel, definite=(st == "no"))
                 o["replay_hint"] = {"kind": "order", "file": rel, "function": q, "line": node.lineno,
-                                    "key": ast.unparse(next((kw.value for kw in node.keywords if kw.arg == "key"), ast.Constant(None)))}
-                obls.append(o)
+                                    "key": ast.unparse(key) if key is not None else "None"}
+                obls.append(volatile(o))
     # the serializer lists a set in iteration order (`isinstance(value, (list, tuple, set))`): no result field may hold one
     dtm = mods[DT]
     set_fields = []
@@ -443,8 +612,9 @@ def policy(repo, tier):
     obls.append(ground_obligation("C06/data_types.py/order#no-set-typed-result-field", not set_fields and n_fields > 100,
                                   "; ".join(set_fields) or f"{n_fields} annotated fields of result classes, none of a set type", DT))
     obls.append(ground_obligation("C06/package/order#all-functions-scanned", n_fun > 400, f"{n_fun} functions scanned for order-exposing set iteration", "package", backend="dataflow"))
-    # ---- frames: observers of result objects
+    # ---- frames: observers of result objects (sharing-depth alias analysis, helpers of the package followed: contracts/C06_frame.py)
     dt = mods[DT]
+    pkg = FR.Package(mods)
     n_obs = 0
     methods = []
     for cq, cnode in dt.classes.items():
@@ -457,32 +627,39 @@ def policy(repo, tier):
         if not is_observer(q):
             continue
         n_obs += 1
-        sites = frame_sites(fnode)
-        # allowed: repositioning an image's own stream (seek) -- position only
-        bad = [(n, d) for (n, d) in sites if not d.endswith(".seek()")]
-        obls.append(ground_obligation(f"C06/data_types.py::{q}/frame#modifies-nothing-reachable-from-self", not bad,
-                                      "; ".join(f"line {n.lineno}: {d}" for n, d in bad), DT))
+        oid = f"C06/data_types.py::{q}/frame#modifies-nothing-reachable-from-self"
+        try:
+            roots = {p_: 0 for p_ in FR.params_of(fnode) if p_ != "cls"}
+            sites = FR.Alias(pkg, dt, q, fnode, roots).sites()
+        except Exception as e:  # noqa -- an unexpected shape must never be an engine error: the replayer decides
+            o = ground_obligation(oid, False, f"frame analysis failed on this shape ({type(e).__name__}: {e})"[:200], DT, definite=False)
+            o["replay_hint"] = {"kind": "frame", "file": DT, "function": q}
+            obls.append(volatile(o))
+            continue
+        definite = any(d_ for (_n, _t, d_) in sites)
+        o = ground_obligation(oid, not sites, "; ".join(f"line {n.lineno}: {t}" + ("" if d_ else " [may-alias]") for n, t, d_ in sites), DT,
+                              definite=definite)
+        o["replay_hint"] = {"kind": "frame", "file": DT, "function": q}
+        obls.append(volatile(o))
+    obls.append(ground_obligation("C06/package/frame#observer-methods-scanned", n_obs >= 150, f"{n_obs} observer methods of result classes analysed", "package"))
     fns.append({"function": f"{DT}::<{n_obs} observer methods>", "lines": [1, 1], "file_sha256": dt.sha256, "segment_sha256": dt.sha256, "obligations": n_obs})
-    # ---- frames: the input buffer is only read
-    n_buf = 0
-    for rel, m in mods.items():
-        for q, fnode in functions_of(m):
-            params = [a.arg for a in fnode.args.args + fnode.args.kwonlyargs] if not isinstance(fnode, ast.Lambda) else []
-            if "file_like" not in params:
-                continue
-            n_buf += 1
-            bad = []
-            for n in own_nodes(fnode):
-                if isinstance(n, ast.Call) and isinstance(n.func, ast.Attribute) and isinstance(n.func.value, ast.Name) and n.func.value.id == "file_like":
-                    if n.func.attr not in BUFFER_READ_ONLY:
-                        bad.append(f"line {n.lineno}: file_like.{n.func.attr}()")
-                if isinstance(n, (ast.Assign, ast.AugAssign)):
-                    for t in (n.targets if isinstance(n, ast.Assign) else [n.target]):
-                        if isinstance(t, (ast.Attribute, ast.Subscript)) and isinstance(t.value, ast.Name) and t.value.id == "file_like":
-                            bad.append(f"line {n.lineno}: store into file_like")
-            obls.append(ground_obligation(f"C06/{rel.split('/')[-1]}::{q}/frame#input-buffer-only-read", not bad, "; ".join(bad), rel))
+    # ---- frames: the caller's input buffer is only read / repositioned -- in every function it is handed to
+    ib = FR.input_buffer_functions(mods, pkg)
+    for (rel, q), names in sorted(ib.items()):
+        fnode = mods[rel].functions[q]
+        try:
+            bad = FR.input_buffer_sites(fnode, names)
+        except Exception as e:  # noqa
+            bad = [(fnode.lineno, f"analysis failed ({type(e).__name__})", False)]
+        o = ground_obligation(f"C06/{rel.split('/')[-1]}::{q}/frame#input-buffer-only-read", not bad,
+                              "; ".join(f"line {ln}: {t}" for ln, t, _d in bad) or f"buffer names {sorted(names)}: only read / seek / tell", rel,
+                              definite=any(d_ for _l, _t, d_ in bad))
+        o["replay_hint"] = {"kind": "frame", "file": rel, "function": q}
+        obls.append(volatile(o))
+    obls.append(ground_obligation("C06/package/frame#input-buffer-receivers-scanned", len(ib) >= 40,
+                                  f"{len(ib)} functions receive the caller's input buffer", "package"))
     # ---- streams owned by a result are read from offset 0
-    so, n_stream = FL.stream_obligations(mods)
+    so, n_stream = FL.stream_obligations(mods, ib)
     obls.extend(so)
     obls.append(ground_obligation("C06/package/stream#result-stream-readers-scanned", n_stream >= 1,
                                   f"{n_stream} function(s) read a stream they do not own", "package"))
@@ -492,6 +669,7 @@ def policy(repo, tier):
     obls.append(ground_obligation("C06/package/state#persistent-state-writers-scanned", n_state >= 3,
                                   f"{n_state} writes of module-level state / decorator caches", "package"))
     # ---- nondeterministic primitives
+    n_src = 0
     index = FL.function_index(mods)
     for rel, m in mods.items():
         for q, fnode in functions_of(m):
@@ -503,16 +681,24 @@ def policy(repo, tier):
                 is_nd = c.startswith(NONDET_CALLS) or (isinstance(n.func, ast.Name) and n.func.id in ("id", "hash") and n.func.id not in m.functions)
                 if not is_nd:
                     continue
-                ok, why = nondet_contained(m, fnode, n, c or n.func.id)
-                if not ok and not (isinstance(n.func, ast.Name) and n.func.id in ("id", "hash")) and not c.startswith("secrets."):
-                    # not contained at the call itself: follow the value through the package (interprocedural taint)
-                    ok, why2, _v = FL.taint_verdict(mods, index, rel, q, fnode, n)
-                    why = f"{c}: {why2}"
+                n_src += 1
+                definite = False
+                try:
+                    ok, why = nondet_contained(m, fnode, n, c or n.func.id)
+                    if not ok and not (isinstance(n.func, ast.Name) and n.func.id in ("id", "hash")) and not c.startswith("secrets."):
+                        # not contained at the call itself: follow the value through the package (interprocedural taint)
+                        ok, why2, _v, definite = FL.taint_verdict(mods, index, rel, q, fnode, n)
+                        why = f"{c}: {why2}"
+                except Exception as e:  # noqa -- unexpected shape: the replayer decides
+                    ok, why = False, f"analysis failed on this shape ({type(e).__name__}: {e})"[:200]
+                # identity keys / the encrypt-wrapper allowance are recognised by shape: not recognised = unknown, never a refutation
                 o = ground_obligation(f"C06/{rel.split('/')[-1]}::{q}/nondet#{(c or n.func.id).replace('.', '_')}-{k}", ok,
-                                      f"{rel}:{n.lineno} {why}", rel)
+                                      f"{rel}:{n.lineno} {why}", rel, definite=definite)
                 o["replay_hint"] = {"kind": "nondet", "file": rel, "function": q, "line": n.lineno, "source": c or n.func.id}
-                obls.append(o)
+                obls.append(volatile(o))
                 k += 1
+    obls.append(ground_obligation("C06/package/nondet#nondeterministic-sources-scanned", n_src >= 5,
+                                  f"{n_src} calls of nondeterministic primitives (clock, id(), random, temporary names, ...) followed", "package"))
     # functions that carry an order / stream / state / nondet obligation of their own: effect / qualifier obligations, listed per family
     # (as for the observers above: one summary entry each -- mutation canaries are only meaningful for the functional contract of
     # _bytesio_to_base64, which is listed by the engine itself)
@@ -524,7 +710,7 @@ def policy(repo, tier):
             per_family.setdefault(fam, {}).setdefault((h["file"], h["function"]), 0)
             per_family[fam][(h["file"], h["function"])] += 1
     for fam, d in sorted(per_family.items()):
-        digest = hashlib.sha256("".join(mods[rel].fn_info(q)["segment_sha256"] for (rel, q) in sorted(d)).encode()).hexdigest()
+        digest = hashlib.sha256("".join(ast.dump(mods[rel].functions[q]) for (rel, q) in sorted(d)).encode()).hexdigest()
         fns.append({"function": f"{sorted(d)[0][0]}::<{len(d)} functions with {fam} obligations: " + ", ".join(q for (_r, q) in sorted(d))[:400] + ">",
                     "lines": [1, 1], "file_sha256": digest, "segment_sha256": digest, "obligations": sum(d.values())})
     return {"obligations": obls, "functions": fns}
@@ -564,8 +750,8 @@ def nondet_contained(m, fnode, call, name):
         return True
 
     if name.startswith("secrets."):
-        ok = fnode.name == "_cryptaes_encrypt"
-        return ok, f"{name} " + ("only in the encrypting wrapper (never called by extraction)" if ok else "outside the encrypting wrapper")
+        ok = "encrypt" in fnode.name.lower() and "decrypt" not in fnode.name.lower()
+        return ok, f"{name} " + ("only in an encrypting routine (extraction only decrypts)" if ok else "outside an encrypting routine")
     if in_logger(call):
         return True, f"{name} only inside a log message"
     p = parents.get(id(call))
@@ -574,31 +760,68 @@ def nondet_contained(m, fnode, call, name):
         q = parents.get(id(q))
     if q is not None and in_logger(q):
         return True, f"{name} only inside a log message"
-    if isinstance(q, ast.Assign) and len(q.targets) == 1 and isinstance(q.targets[0], ast.Name):
+    if isinstance(q, ast.Assign) and len(q.targets) == 1 and isinstance(q.targets[0], ast.Name) and name not in ("id", "hash"):
         if uses_ok(q.targets[0].id):
             return True, f"{name} flows only into log messages (via {q.targets[0].id})"
         return False, f"{name} assigned to {q.targets[0].id} which is used outside log messages"
-    if name in ("id", "hash") and isinstance(p, ast.Tuple):
-        gp = parents.get(id(p))
-        if isinstance(gp, ast.Assign) and len(gp.targets) == 1 and isinstance(gp.targets[0], ast.Name):
-            key = gp.targets[0].id
-            uses = [n for n in own_nodes(fnode) if isinstance(n, ast.Name) and n.id == key and isinstance(n.ctx, ast.Load)]
-            def key_use(n):
-                pp = parents.get(id(n))
-                return isinstance(pp, ast.Subscript) or (isinstance(pp, ast.Compare) and any(isinstance(o, (ast.In, ast.NotIn)) for o in pp.ops))
-            if uses and all(key_use(n) for n in uses):
-                return True, f"{name}() only part of a cache key ({key})"
     if name in ("id", "hash"):
-        # membership key: `id(x) in s`, `s.add(id(x))`, `d[id(x)]`, `d.get(id(x))`
-        if isinstance(p, ast.Compare) and any(isinstance(o, (ast.In, ast.NotIn)) for o in p.ops):
-            return True, f"{name}() used as a membership key"
-        if isinstance(p, ast.Call) and isinstance(p.func, ast.Attribute) and p.func.attr in ("add", "get", "discard", "setdefault", "pop"):
-            return True, f"{name}() used as a key of a local set/dict"
-        if isinstance(p, ast.Subscript):
-            return True, f"{name}() used as a dict key"
-        if isinstance(p, (ast.SetComp,)) or (isinstance(p, ast.comprehension)):
-            return True, f"{name}() collected into a local set"
-        return False, f"{name}() value escapes"
+        # An identity / hash value is harmless as long as it is only ever *compared* or used as a *hash key* (set member, dict key):
+        # equality of identities within one run is deterministic.  Followed through tuples, names and walrus targets.
+        KEY_METHODS = {"add", "discard", "remove", "get", "setdefault", "pop", "__contains__", "count", "index"}
+
+        def key_only(node, depth=0):
+            if depth > 6:
+                return False, "too deep"
+            par = parents.get(id(node))
+            if isinstance(par, ast.Compare):
+                return True, "compared / membership test"
+            if isinstance(par, ast.Subscript) and par.slice is node:
+                return True, "subscript key"
+            if isinstance(par, ast.Call) and isinstance(par.func, ast.Attribute) and par.func.attr in KEY_METHODS and par.args and par.args[0] is node:
+                return True, f"key argument of .{par.func.attr}()"
+            if isinstance(par, ast.Tuple):
+                return key_only(par, depth + 1)
+            if isinstance(par, (ast.SetComp, ast.Set)):
+                return True, "member of a local set"
+            if isinstance(par, ast.DictComp) and par.key is node:
+                return True, "key of a local dict"
+            if isinstance(par, ast.Dict) and any(k is node for k in par.keys):
+                return True, "key of a local dict"
+            if isinstance(par, ast.GeneratorExp) and par.elt is node:
+                gp_ = parents.get(id(par))
+                if isinstance(gp_, ast.Call) and dotted(gp_.func) in ("set", "frozenset"):
+                    return True, "member of a local set"
+                return False, "generator of identities"
+            if isinstance(par, ast.comprehension):
+                return True, "comprehension condition"
+            if isinstance(par, (ast.BoolOp, ast.UnaryOp, ast.IfExp)) and not (isinstance(par, ast.IfExp) and par.test is not node and False):
+                if isinstance(par, ast.IfExp) and par.test is node:
+                    return True, "condition"
+                return key_only(par, depth + 1)
+            if isinstance(par, (ast.If, ast.While, ast.Assert)):
+                return True, "condition"
+            tgt = None
+            if isinstance(par, ast.Assign) and len(par.targets) == 1 and isinstance(par.targets[0], ast.Name) and par.value is node:
+                tgt = par.targets[0].id
+            elif isinstance(par, ast.AnnAssign) and isinstance(par.target, ast.Name) and par.value is node:
+                tgt = par.target.id
+            elif isinstance(par, ast.NamedExpr) and par.value is node:
+                tgt = par.target.id
+                ok_, why_ = key_only(par, depth + 1)       # the walrus expression itself is a use as well
+                if not ok_:
+                    return ok_, why_
+            if tgt is not None:
+                loads = [x for x in own_nodes(fnode) if isinstance(x, ast.Name) and x.id == tgt and isinstance(x.ctx, ast.Load)]
+                for x in loads:
+                    if in_logger(x):
+                        continue
+                    ok_, why_ = key_only(x, depth + 1)
+                    if not ok_:
+                        return False, f"{tgt}: {why_}"
+                return True, f"bound to {tgt}, which is only compared / used as a key"
+            return False, f"used in {type(par).__name__}"
+        ok_, why_ = key_only(call)
+        return ok_, f"{name}() {'only ' if ok_ else 'value escapes: '}{why_}"
     if name.startswith("secrets."):
         ok = fnode.name == "_cryptaes_encrypt"
         return ok, f"{name} " + ("only in the encrypting wrapper (never called by extraction)" if ok else "outside the encrypting wrapper")
@@ -650,11 +873,35 @@ def contracts(reg):
 
 
 def _executor():
-    from contracts.C05 import EXECUTOR as E
-    return E
+    import z3
+    from contracts import c05spec as sp
+    from contracts.c05exec import PTok, SerExecutor
+
+    class C06Executor(SerExecutor):
+        """C05's executor + the position-independent readers of io.BytesIO (assumed library model: `getvalue()` / `getbuffer()`
+        return the whole payload whatever the cursor is and do not move it)."""
+
+        def pv_method(self, st, obj, name, args, kwargs, node):
+            if name in ("getvalue", "getbuffer") and not args:
+                V = sp.V
+                s2 = self.fork_raise(st, sp.norm(z3.Not(V.is_BytesIO(obj.t))), "AttributeError")
+                return [] if s2 is None else [(s2, PTok("bin", sp.norm(V.iop(obj.t))))]
+            return super().pv_method(st, obj, name, args, kwargs, node)
+
+    return C06Executor
 
 
 EXECUTOR = _executor()
+
+
+def post_report(c, rep):
+    """A refutation of the deductive obligations is a counterexample only when the whole path is modelled: if the executor had to
+    havoc a call it has no model for (EXC-ANY site), `refuted` means "not proved with this model" -> unknown, the replayer decides."""
+    if getattr(rep, "exc_any_sites", 0):
+        for o in rep.obligations:
+            if o.get("status") == "refuted":
+                o["status"] = "unknown"
+                o["reason"] = ((o.get("reason") or "") + f"; path contains {rep.exc_any_sites} unmodelled call(s): not a definite counterexample").strip("; ")
 
 
 TRUSTED = ["third-party parsers are deterministic functions of their input bytes", "PY-HASHSEED: dict iteration = insertion order; set iteration order arbitrary per process"]
